@@ -65,6 +65,13 @@ class LruSpace(object):
         return b"".join(r.choice(self.stems) for _ in range(r.choice([1, 2, 2, 3, 3, 4, 5])))
 
 
+def utf8_clean(b):
+    try:
+        return b.decode("utf-8").encode("utf-8") == b
+    except UnicodeDecodeError:
+        return False
+
+
 def stems_of(l):
     out, last = [], 0
     for i, b in enumerate(l):
@@ -214,7 +221,22 @@ class Session(object):
             self.note(s, *ts); self.pages += [s] + ts
         if not data:
             return self.do("batch -")
-        return self.do("batch " + ";".join("%s>%s" % (hx(s), ",".join(hx(t) for t in ts)) for s, ts in data.items()))
+        return self.do("batch " + self.batch_arg(data, pool))
+
+    def batch_arg(self, data, pool):
+        """the multimap as text; now and then one source is given twice, once as bytes and once as text (two different keys
+        of the caller's dict that name the same page): first character b / s instead of x"""
+        r = self.r
+        ents = [(hx(s), ts) for s, ts in data.items()]
+        clean = [i for i, (s, _) in enumerate(data.items()) if utf8_clean(s)]
+        if clean and r.random() < 0.2:
+            i = r.choice(clean)
+            h, ts = ents[i]
+            ents[i] = ("b" + h[1:], ts)
+            ts2 = [r.choice(pool) if r.random() < 0.7 else self.page_lru() for _ in range(r.choice([0, 1, 1, 2, 3]))]
+            self.note(*ts2); self.pages += ts2
+            ents.append(("s" + h[1:], ts2))
+        return ";".join("%s>%s" % (h, ",".join(hx(t) for t in ts)) for h, ts in ents)
 
     def w_cobatch(self):
         """the crawl batch through its generator, advanced by hand and left at the first state that says done (the
@@ -228,7 +250,7 @@ class Session(object):
         for s_, ts in data.items():
             self.note(s_, *ts); self.pages += [s_] + ts
         self.co_n = getattr(self, "co_n", 100) + 1
-        self.do("co new %d batch %s" % (self.co_n, ";".join("%s>%s" % (hx(a), ",".join(hx(t) for t in ts)) for a, ts in data.items())))
+        self.do("co new %d batch %s" % (self.co_n, self.batch_arg(data, pool)))
         a = "yield"
         for _ in range(400):
             a = self.do("co step %d" % self.co_n)
@@ -246,15 +268,25 @@ class Session(object):
         self.note(*ps)
         return self.do("create " + brack([hx(p) for p in ps]))
 
+    def probe_queries(self):
+        """queries about one webentity, asked before and again after an edit that takes prefixes away (or a clear followed
+        by re-indexing): whatever a query remembered on the index object must not outlive the edit"""
+        w2, ps2 = self.pick_we()
+        a2 = brack([hx(p) for p in ps2])
+        sw = self.r.choice(["010", "001", "110", "111"])
+        qs = ["pagelinks %d %s %s %s %s" % (w2, a2, sw[0], sw[1], sw[2]), "weout %d %s" % (w2, a2), "wein %d %s" % (w2, a2),
+              "network 1 0 %s" % self.r.choice("01"), "network %s 1 1" % self.r.choice("01"),
+              "paginatelinks %d %s %s %s %s -" % (w2, a2, sw[1], sw[2], self.r.choice(["1", "2", "-"])),
+              "mostlinked %d %s %s %s" % (w2, a2, self.r.choice(["2", "10"]), self.r.choice(["-", "2"])),
+              "pages %d %s" % (w2, a2), "children %d %s" % (w2, a2), "paginate %d %s %s - 0" % (w2, a2, self.r.choice(["1", "3", "-"]))]
+        self.r.shuffle(qs)
+        return qs[: self.r.randint(3, 6)]
+
     def w_delete(self):
         w, ps = self.pick_we()
         probe = self.r.random() < 0.5
         if probe:                       # a query, the deletion, the same query again (stale caches show here)
-            w2, ps2 = self.pick_we()
-            a2 = brack([hx(p) for p in ps2])
-            sw = self.r.choice(["010", "001", "110", "111"])
-            qs = ["pagelinks %d %s %s %s %s" % (w2, a2, sw[0], sw[1], sw[2]), "weout %d %s" % (w2, a2), "wein %d %s" % (w2, a2),
-                  "network 1 0 %s" % self.r.choice("01")]
+            qs = self.probe_queries()
             for q in qs:
                 self.q(q)
         x = self.r.random()
@@ -285,7 +317,13 @@ class Session(object):
         self.note(p)
         x = self.r.random()
         arg = str(w) if x < 0.6 else ("-" if x < 0.85 else str(w + 1))
-        return self.do("rmprefix %s %s" % (hx(p), arg))
+        qs = self.probe_queries() if self.r.random() < 0.5 else []
+        for q in qs:
+            self.q(q)
+        res = self.do("rmprefix %s %s" % (hx(p), arg))
+        for q in qs:
+            self.q(q)
+        return res
 
     def w_moveprefix(self):
         w, ps = self.pick_we()
@@ -294,7 +332,13 @@ class Session(object):
         self.note(p)
         x = self.r.random()
         arg = str(w) if x < 0.6 else ("-" if x < 0.85 else str(w + 1))
-        return self.do("moveprefix %s %d %s" % (hx(p), w2, arg))
+        qs = self.probe_queries() if self.r.random() < 0.3 else []
+        for q in qs:
+            self.q(q)
+        res = self.do("moveprefix %s %d %s" % (hx(p), w2, arg))
+        for q in qs:
+            self.q(q)
+        return res
 
     def w_addrule(self):
         st = stems_of(self.any_lru())
@@ -326,6 +370,22 @@ class Session(object):
         return res
 
     def w_clear(self):
+        qs = self.probe_queries() if self.r.random() < 0.6 else []
+        for q in qs:
+            self.q(q)
+        earlier = [l for l in self.lines if l.startswith(("addlinks ", "batch ", "addpage ", "create "))]
+        res = self.w_clear0()
+        if qs:
+            # index again on the same object: some of the earlier requests in another order, then the same questions
+            for l in self.r.sample(earlier, min(len(earlier), self.r.randint(2, 6))):
+                self.do(l)
+                if l.startswith(("addlinks ", "batch ")):
+                    self.pages = self.pages or []
+            for q in qs:
+                self.q(q)
+        return res
+
+    def w_clear0(self):
         x = self.r.random()
         if x < 0.15:
             d = self.r.choice(RULE_NAMES); self.dflt = d
